@@ -16,7 +16,8 @@ from .pool import chunks, pmap
 from .tlaval import seq, to_tla
 
 CONES = {"orth": [[1, 0], [0, 1]], "pyobt": [[3, 4], [4, 3]], "pyac": [[-3, 4], [4, -3]], "k3": [[1, 0], [0, 1], [1, 1]],
-         "k3b": [[2, -1], [-1, 2], [1, 1]]}     # k3b: facets with DIFFERENT alpha (3/5 for the acute pair, 1 for the diagonal facet)
+         "k3b": [[2, -1], [-1, 2], [1, 1]],     # k3b: facets with DIFFERENT alpha (3/5 for the acute pair, 1 for the diagonal facet)
+         "skew": [[2, 1], [-1, 3]]}             # square but NOT symmetric (hyper-volume table only): W and its transpose describe different cones
 EPS2 = [(0, 1), (1, 1), (4, 1), (1, 4)]
 INVS = {"gap": ["GapThm", "CovThm", "CovMono", "CovRefl"], "f1": ["F1Range", "F1True", "F1Mono", "F1Perm"], "hv": ["HVThm"]}
 
@@ -202,7 +203,7 @@ def _replay_hv(rows):
 def run(ctx):
     import vopy.utils.evaluate  # noqa: F401
     thorough = ctx.tier == "thorough"
-    cones = list(CONES)
+    cones = [c for c in CONES if c != "skew"]
     g = _run(ctx, "gap", 3 if thorough else 2, cones) + ([] if thorough else _run(ctx, "gap", 3, ["pyobt"]))
     rows_g = []
     for cone, st in g:
@@ -212,7 +213,7 @@ def run(ctx):
     f = _run(ctx, "f1", 3, cones if thorough else ["orth", "pyobt"])        # k3b (unequal alphas) is in the gap table of both tiers
     rows_f = [(cone, [list(v) for v in seq(st["cfg"]["V"])], set(st["ans"]["true"]), list(seq(st["cfg"]["pred"])), dict(st["ans"]["f1"]), dict(st["ans"]["bd"]))
               for cone, st in f]
-    h = _run(ctx, "hv", 2, ["orth", "pyobt", "pyac"])
+    h = _run(ctx, "hv", 2, ["orth", "pyobt", "pyac", "skew"])
     rows_h = [(cone, [list(v) for v in seq(st["cfg"]["V"])], [list(v) for v in seq(st["cfg"]["Y"])], st["ans"]["hvtrue"], st["ans"]["hvpred"]) for cone, st in h]
     import random
     rnd = random.Random(ctx.seed)
